@@ -141,9 +141,16 @@ def gen_program(case_seed, force=None):
     ncalls = force.get('ncalls') or rnd.choice([1, 1, 1, 2, 2, 3])
     if route in ('param_partial', 'inner_partial', 'wraps', 'default_param'):
         ncalls = 1
+    # now and then the whole module uses postponed annotations (PEP 563) and annotates parameters with names
+    # that exist for a type checker only: nothing in retrieval needs their values
+    future = 'taints' not in force and rnd.random() < 0.12
+    if future:
+        po = tuple((n_, k_, d_, ('OnlyForTypeCheckers' if rnd.random() < 0.5 else a_)) for n_, k_, d_, a_ in po)
     calls = []
     for ci in range(ncalls):
         pi = rnd.choice(inners)
+        if future:
+            pi = tuple((n_, k_, d_, ('AlsoMissing%d' % rnd.randint(1, 2) if rnd.random() < 0.6 else a_)) for n_, k_, d_, a_ in pi)
         if rnd.random() < 0.05:
             pi = tuple((('a' if k == 0 and p[1] not in (VA, VK) else p[0]),) + p[1:] for k, p in enumerate(pi))
         ipos = [p[0] for p in pi if p[1] in (PO, PK)]
@@ -212,7 +219,7 @@ def gen_program(case_seed, force=None):
     for c in calls:
         c['decoy_after'] = rnd.choice(DECOYS).format() if rnd.random() < 0.25 else None
     meta = dict(case_seed=case_seed, route=route, po=po, ova=ova, ovk=ovk, calls=calls, taints=taints,
-                decoys_head=decoys_head, decorate_outer=False, extra_tail=[], modifier=modifier)
+                decoys_head=decoys_head, decorate_outer=False, extra_tail=[], modifier=modifier, future=future)
     return render(meta), meta
 
 
@@ -259,6 +266,8 @@ def render(meta):
         body = ['pass']
     src, target_expr = assemble(route, po, calls, body, decorate=meta.get('decorate_outer', False),
                                 modifier=meta.get('modifier'))
+    if meta.get('future'):
+        src = 'from __future__ import annotations\n' + src
     return src
 
 
